@@ -69,7 +69,7 @@ func convertHasExpression(stmt *gripql.HasExpression, not bool) bson.M {
 		}
 
 	case *gripql.HasExpression_Not:
-		notRes := convertHasExpression(stmt.GetNot(), true)
+		notRes := convertHasExpression(stmt.GetNot(), !not)
 		output = notRes
 
 	default:
